@@ -783,20 +783,22 @@ pub fn c05_huge_positions() -> Phase {
 /// C40 / Text / X12: every sequence of six values (two pairs) over the values that change the decoder's state
 /// or sit at the edge of a table {0,1,2,3,27,30,31,32,39}, behind each of the three latches.
 pub fn c05_c40_value_sequences() -> Phase {
-    const V: [u16; 9] = [0, 1, 2, 3, 27, 30, 31, 32, 39];
-    const N: u64 = 9 * 9 * 9 * 9 * 9 * 9;
+    // the FIRST value of a pair can also be 40 (pairs from (250, 1) on): ten values there, nine elsewhere
+    const V: [u32; 10] = [0, 1, 2, 3, 27, 30, 31, 32, 39, 40];
+    const N: u64 = 10 * 9 * 9 * 10 * 9 * 9;
     let total = N * 3;
     let make = move |_ctx: &Ctx, i: u64| -> Trace {
         let latch = [230u8, 239, 238][(i / N) as usize];
         let mut r = i % N;
-        let mut vals = [0u16; 6];
-        for v in vals.iter_mut() {
-            *v = V[(r % 9) as usize];
-            r /= 9;
+        let mut vals = [0u32; 6];
+        for (q, v) in vals.iter_mut().enumerate() {
+            let base = if q % 3 == 0 { 10 } else { 9 };
+            *v = V[(r % base) as usize];
+            r /= base;
         }
         let mut data = vec![latch];
         for p in 0..2 {
-            let x = 1600 * vals[3 * p] + 40 * vals[3 * p + 1] + vals[3 * p + 2] + 1;
+            let x = (1600 * vals[3 * p] + 40 * vals[3 * p + 1] + vals[3 * p + 2] + 1).min(65535);
             data.push((x >> 8) as u8);
             data.push((x & 0xFF) as u8);
         }
@@ -1389,16 +1391,17 @@ pub fn c08_adjacent_fixed_pairs(seed: u64) -> Phase {
 }
 
 /// Well-formed text in the Unicode encoding forms, then torn: boundary characters of every plane (and pairs of
-/// them) encoded as UTF-8, UTF-16BE/LE and UTF-32BE/LE, delivered whole, cut one byte short and with one byte
-/// damaged, under the designators that name those forms (ECI 25, 26, 33, 34, 35) and under two that do not (3, 27).
+/// them) encoded as UTF-8, UTF-16BE/LE, UTF-32BE/LE, CESU-8 (surrogate pairs as three-byte sequences), lone
+/// surrogates, overlong forms and the obsolete five-byte form, delivered whole, cut one byte short and with one
+/// byte damaged (each of the last four bytes in two ways), under the designators that name those forms (ECI 25, 26, 33, 34, 35) and under two that do not (3, 27).
 pub fn c05_unicode_encodings() -> Phase {
     const CPS: [u32; 22] = [
         0x41, 0x7F, 0x80, 0xFF, 0x7FF, 0x800, 0xD7FF, 0xE000, 0xFEFF, 0xFFFD, 0xFFFE, 0xFFFF, 0x10000, 0x1F600, 0x1FFFF, 0x20000, 0x2FFFF,
         0x30000, 0xE0000, 0xFFFFF, 0x100000, 0x10FFFF,
     ];
     const ECIS: [u8; 7] = [25, 26, 33, 34, 35, 3, 27];
-    const NFORM: u64 = 5;
-    const NVAR: u64 = 5;
+    const NFORM: u64 = 9;
+    const NVAR: u64 = 5 + 8;
     let n_cp = CPS.len() as u64;
     let total = n_cp * n_cp.min(6) * NFORM * ECIS.len() as u64 * NVAR;
     let make = move |_ctx: &Ctx, i: u64| -> Trace {
@@ -1435,7 +1438,43 @@ pub fn c05_unicode_encodings() -> Phase {
                     }
                 }
                 3 => bytes.extend_from_slice(&(ch as u32).to_be_bytes()),
-                _ => bytes.extend_from_slice(&(ch as u32).to_le_bytes()),
+                4 => bytes.extend_from_slice(&(ch as u32).to_le_bytes()),
+                5 | 6 => {
+                    // CESU-8 / WTF-8: UTF-16 code units written as three-byte sequences (astral characters as a
+                    // surrogate pair of two three-byte sequences; form 6: the high half only - a lone surrogate)
+                    let mut b = [0u16; 2];
+                    let units = ch.encode_utf16(&mut b);
+                    let n_units = if form == 6 { 1 } else { units.len() };
+                    for u in units.iter().take(n_units) {
+                        let u = *u as u32;
+                        if u < 0x80 {
+                            bytes.push(u as u8);
+                        } else if u < 0x800 {
+                            bytes.push(0xC0 | (u >> 6) as u8);
+                            bytes.push(0x80 | (u & 0x3F) as u8);
+                        } else {
+                            bytes.push(0xE0 | (u >> 12) as u8);
+                            bytes.push(0x80 | ((u >> 6) & 0x3F) as u8);
+                            bytes.push(0x80 | (u & 0x3F) as u8);
+                        }
+                    }
+                }
+                7 => {
+                    // overlong forms: the code point in one more byte than needed (4 bytes at most)
+                    let c = ch as u32;
+                    if c < 0x80 {
+                        bytes.extend_from_slice(&[0xC0 | (c >> 6) as u8, 0x80 | (c & 0x3F) as u8]);
+                    } else if c < 0x800 {
+                        bytes.extend_from_slice(&[0xE0, 0x80 | (c >> 6) as u8, 0x80 | (c & 0x3F) as u8]);
+                    } else {
+                        bytes.extend_from_slice(&[0xF0 | ((c >> 18) & 7) as u8, 0x80 | ((c >> 12) & 0x3F) as u8, 0x80 | ((c >> 6) & 0x3F) as u8, 0x80 | (c & 0x3F) as u8]);
+                    }
+                }
+                _ => {
+                    // the obsolete five-byte form and code points past U+10FFFF
+                    let c = (ch as u32) | 0x200000;
+                    bytes.extend_from_slice(&[0xF8 | ((c >> 24) & 3) as u8, 0x80 | ((c >> 18) & 0x3F) as u8, 0x80 | ((c >> 12) & 0x3F) as u8, 0x80 | ((c >> 6) & 0x3F) as u8, 0x80 | (c & 0x3F) as u8]);
+                }
             }
         }
         match var {
@@ -1452,6 +1491,15 @@ pub fn c05_unicode_encodings() -> Phase {
             }
             4 => {
                 bytes.remove(0);
+            }
+            5..=12 => {
+                // one byte damaged, counted from the END of the text (the last byte, the one before, ...): a
+                // continuation byte turned into a starter or an ASCII byte, a starter into a continuation byte
+                let back = ((var - 5) / 2) as usize;
+                if back < bytes.len() {
+                    let l = bytes.len() - 1 - back;
+                    bytes[l] = if (var - 5) % 2 == 0 { bytes[l] ^ 0x80 } else { 0x41 };
+                }
             }
             _ => {}
         }
@@ -1553,4 +1601,22 @@ pub fn c05_giant_segments() -> Phase {
 fn c40_triple(c1: u16, c2: u16, c3: u16) -> [u8; 2] {
     let v = 1600 * c1 + 40 * c2 + c3 + 1;
     [(v >> 8) as u8, (v & 0xFF) as u8]
+}
+
+/// Arrays of 2^32 + (a catalogue pixel count) light pixels, framed with that catalogue size's power-of-two width:
+/// the pixel count aliases a valid symbol when it passes through a 32-bit integer. Built from zeroed pages.
+pub fn huge_blank_arrays(prop: &'static str) -> Phase {
+    let total = crate::trace::N_HUGE_BLANKS as u64;
+    let make = move |_ctx: &Ctx, i: u64| -> Trace {
+        Trace {
+            prop: prop.into(),
+            producer: Producer::Stream { data: vec![] },
+            faults: vec![Fault::new("geo_replace", Op::GeoHugeBlank { code: i as u32 })],
+        }
+    };
+    Phase {
+        source: Source::Sweep { name: "sweep_pixel_counts_aliasing_modulo_2_pow_32".into(), prop: prop.into(), make: Box::new(make) },
+        runs: total,
+        wall_cap_s: 0,
+    }
 }
